@@ -108,6 +108,47 @@ theorem intF_left_eq_right (τ : ℕ → K) (hτ : Monotone τ) (ξ : K) (q N i 
   congr 1
   exact Finset.sum_congr rfl (fun j _ => B_left_eq_right τ hτ ξ (q+1) (q+1) j le_rfl hm)
 
+/-- **`intF` is continuous at EVERY interior point of the domain, whatever the knot multiplicity.**
+(`μL`, `μR`: the spans containing `ξ` from the left / from the right, both inside the domain
+`q+1 ≤ μ < N` of the extended basis.)  Where a degree-`q+1` B-spline of the tail sum jumps (a knot of
+multiplicity `> q+1`) either the factor `τ (i+q+1) − τ i` vanishes, or the jumps cancel by the
+partition of unity. -/
+theorem intF_left_eq_right_of_domain (τ : ℕ → K) (hτ : Monotone τ) (ξ : K) (q N i μL μR : ℕ)
+    (hL : Side.left.mem (τ μL) (τ (μL+1)) ξ) (hR : Side.right.mem (τ μR) (τ (μR+1)) ξ)
+    (hqL : q + 1 ≤ μL) (hNL : μL < N) (hqR : q + 1 ≤ μR) (hNR : μR < N) :
+    intF .left τ q N i ξ = intF .right τ q N i ξ := by
+  unfold intF
+  rcases eq_or_lt_of_le (hτ (show i ≤ i+q+1 by omega)) with hz | hz
+  · rw [← hz, sub_self, zero_div, zero_mul, zero_mul]
+  · congr 1
+    rcases lt_or_ge (τ i) ξ with hlt | hge
+    · -- the complement `Σ_{j<i}` is continuous, and both full sums are 1
+      rcases Nat.lt_or_ge N i with hNi | hNi
+      · rw [Finset.Ico_eq_empty (by omega), Finset.sum_empty, Finset.sum_empty]
+      · have h1 := B_sum_range_eq_one .left τ hτ (q+1) μL N hqL hNL ξ hL
+        have h2 := B_sum_range_eq_one .right τ hτ (q+1) μR N hqR hNR ξ hR
+        rw [Finset.range_eq_Ico, ← Finset.sum_Ico_consecutive _ (Nat.zero_le i) hNi] at h1 h2
+        have h3 : ∑ j ∈ Finset.Ico 0 i, B .left τ (q+1) j ξ = ∑ j ∈ Finset.Ico 0 i, B .right τ (q+1) j ξ := by
+          apply Finset.sum_congr rfl
+          intro j hj
+          rw [Finset.mem_Ico] at hj
+          apply B_left_eq_right_of_local τ hτ ξ (q+1) j
+          · intro h
+            exact absurd (h ▸ hτ (show j ≤ i by omega)) (not_le.mpr hlt)
+          · intro h
+            exact absurd (h ▸ hτ (show j + 1 ≤ i by omega)) (not_le.mpr hlt)
+        linarith
+    · apply Finset.sum_congr rfl
+      intro j hj
+      rw [Finset.mem_Ico] at hj
+      apply B_left_eq_right_of_local τ hτ ξ (q+1) j
+      · intro _ h2
+        have : τ (i+q+1) ≤ τ (j+(q+1)) := hτ (by omega)
+        exact absurd (lt_of_lt_of_le hz this) (by rw [h2]; exact not_lt.mpr hge)
+      · intro _ h2
+        have : τ (i+q+1) ≤ τ (j+(q+1)+1) := hτ (by omega)
+        exact absurd (lt_of_lt_of_le hz this) (by rw [h2]; exact not_lt.mpr hge)
+
 /-! ## The integrals of all basis functions add up to the length of the interval -/
 
 omit [LinearOrder K] [IsStrictOrderedRing K] in
